@@ -3,6 +3,7 @@ package gqlgen
 import (
 	"context"
 	"encoding/json"
+	"errors"
 	"fmt"
 	"strings"
 	"sync"
@@ -59,7 +60,7 @@ func (s *Scripted) Run(resolver graphql.UnitResolver, units ...*graphql.WorkUnit
 type Observed struct {
 	OK    bool        `json:"ok"`
 	JSON  interface{} `json:"json,omitempty"` // after a JSON round trip
-	Class string      `json:"class,omitempty"`  // err | safe | wrapped | client | panic | other
+	Class string      `json:"class,omitempty"`  // err | safe | wrapped | client | panic | wrapsafe
 	Text  string      `json:"text,omitempty"`   // message of the cause (panic: the panic value)
 	Path  []string    `json:"path,omitempty"`   // response path without the query name
 	Full  string      `json:"full,omitempty"`   // err.Error(), stack removed
@@ -123,7 +124,12 @@ func classify(err error, qname string) Observed {
 			o.Text = `expected type boolean in "if" argument`
 		}
 	default:
-		if strings.HasPrefix(ctext, "graphql: panic: ") {
+		var inner graphql.SanitizedError
+		if errors.As(cause, &inner) {
+			// not a SanitizedError itself, but one is somewhere in its chain
+			o.Class = "wrapsafe"
+			o.Text = ctext
+		} else if strings.HasPrefix(ctext, "graphql: panic: ") {
 			o.Class = "panic"
 			t := strings.TrimPrefix(ctext, "graphql: panic: ")
 			if i := strings.Index(t, "\n"); i >= 0 {
